@@ -338,6 +338,8 @@ def run_check(check, tier, seed):
                         "goal": str(o.goal)[:400], "n_hypotheses": len(o.pc)})
     if bres:
         samples.extend(bres.get("samples", [])[:4])
+        if not samples:
+            samples.append({"bounded_rule": bres.get("rule", "")[:300], "evaluations": bres.get("evaluations")})
     cov = {
         "obligations": n_ob,
         "discharged": n_dis,
